@@ -174,6 +174,7 @@ type Explorer struct {
 	s2list    []*Stage2
 	s2results []*S2Result
 	opaqueSrc map[*value]*docNode
+	inMarshalBack int
 }
 
 type holeRec struct {
